@@ -744,7 +744,13 @@ func (sel *Selection) get(r *FieldRequest, hnd *ValueHandle, useDefault bool) er
 	if hnd.Val == nil && useDefault {
 		if r.Meta.HasDefault() {
 			var err error
-			if hnd.Val, err = NewValue(r.Meta.Type(), r.Meta.DefaultValue()); err != nil {
+			dflt := r.Meta.DefaultValue()
+			if l, isList := dflt.([]string); isList {
+				// the data tree gets a list of its own: the converters keep a []string as it
+				// is, and what a store does with its value must not reach the schema
+				dflt = append(make([]string, 0, len(l)), l...)
+			}
+			if hnd.Val, err = NewValue(r.Meta.Type(), dflt); err != nil {
 				return err
 			}
 		}
